@@ -52,7 +52,12 @@ def gen_cases(tier, seed):
             mats = None  # placeholder: the exhaustive batches are generated below
         ms = [pm1[i] for i in rng.choice(len(pm1), per_batch // 2, replace=False)]
         for _ in range(per_batch // 4):
-            ms.append(np.diag(rng.integers(1, 5, 3)).tolist())
+            d = rng.integers(1, 5, 3)
+            if rng.integers(3) == 0:  # proper diagonal matrices with two negative entries (det > 0)
+                i, j = rng.choice(3, 2, replace=False)
+                d[i] *= -1
+                d[j] *= -1
+            ms.append(np.diag(d).tolist())
         tries = 0
         while len(ms) < per_batch and tries < 1000:
             tries += 1
@@ -90,11 +95,22 @@ def gen_cases(tier, seed):
     return cases
 
 
-def _positions_set(cell, tol=6):
-    x = np.array(cell.scaled_positions)
-    x = x - np.floor(x + 1e-9)
-    x = np.where(x > 1 - 1e-7, 0.0, x)
-    return sorted((s, tuple(np.round(p, tol) % 1.0)) for s, p in zip(cell.symbols, x))
+def _same_atom_set(a, b, tol=1e-6):
+    """Same multiset of (species, position modulo 1): robust matching, no rounding of coordinates."""
+    if len(a) != len(b):
+        return False
+    xa, xb = np.array(a.scaled_positions), np.array(b.scaled_positions)
+    sa, sb = np.array(a.symbols), np.array(b.symbols)
+    used = np.zeros(len(b), bool)
+    for i in range(len(a)):
+        d = xb - xa[i]
+        d -= np.rint(d)
+        ok = (np.abs(d).max(axis=1) < tol) & (sb == sa[i]) & ~used
+        j = np.nonzero(ok)[0]
+        if len(j) != 1:
+            return False
+        used[j[0]] = True
+    return bool(used.all())
 
 
 def run_case(c):
@@ -153,7 +169,7 @@ def run_case(c):
 
                     bb = PhonopyAtoms(cell=a.cell, scaled_positions=xb, symbols=b.symbols)
                     obs["old_vs_snf_compared"] = obs.get("old_vs_snf_compared", 0) + 1
-                    if _positions_set(a) != _positions_set(bb):
+                    if not _same_atom_set(a, bb):
                         bad("old_vs_snf", "old-style and SNF constructions give different sets of atoms", matrix=S)
                 else:
                     Sm = np.array(S)
